@@ -16,7 +16,7 @@ func mainLoop(L *LState, baseframe *callFrame) {
 
 	L.currentFrame = L.stack.Last()
 	if L.currentFrame.Fn.IsG {
-		callGFunction(L, false)
+		callGFunction(L, false, baseframe == nil)
 		return
 	}
 
@@ -40,7 +40,7 @@ func mainLoopWithContext(L *LState, baseframe *callFrame) {
 
 	L.currentFrame = L.stack.Last()
 	if L.currentFrame.Fn.IsG {
-		callGFunction(L, false)
+		callGFunction(L, false, baseframe == nil)
 		return
 	}
 
@@ -102,10 +102,15 @@ func switchToParentThread(L *LState, nargs int, haserror bool, kill bool) {
 	}
 }
 
-func callGFunction(L *LState, tailcall bool) bool {
+func callGFunction(L *LState, tailcall bool, canyield bool) bool {
 	frame := L.currentFrame
 	gfnret := frame.Fn.GFunction(L)
 	if gfnret < 0 {
+		if !canyield && L.Parent != nil {
+			// only the outermost interpreter loop of a coroutine can be left and re-entered: not Lua code
+			// that a host function (pcall, a metamethod, a comparator, an iterator) has called
+			L.RaiseError("attempt to yield across metamethod/C-call boundary")
+		}
 		if tailcall {
 			// a yield in tail position keeps the calling frame: when resumed, the values are found at R(A)
 			// and the OP_RETURN that follows every OP_TAILCALL hands all of them on
@@ -598,7 +603,7 @@ func init() {
 				callable, meta = L.metaCall(lv)
 			}
 			// +inline-call L.pushCallFrame callFrame{Fn:callable,Pc:0,Base:RA,LocalBase:RA+1,ReturnBase:RA,NArgs:nargs,NRet:nret,Parent:cf,TailCall:0} lv meta
-			if callable.IsG && callGFunction(L, false) {
+			if callable.IsG && callGFunction(L, false, baseframe == nil) {
 				return 1
 			}
 			return 0
@@ -640,7 +645,7 @@ func init() {
 					Parent:     cf,
 					TailCall:   0,
 				}, lv, meta)
-				if callGFunction(L, true) {
+				if callGFunction(L, true, baseframe == nil) {
 					return 1
 				}
 				if L.currentFrame == nil || L.currentFrame.Fn.IsG || luaframe == baseframe {
